@@ -26,22 +26,24 @@ Definition ep_ok (e : endpoint) : Prop :=
   fc_steps (e_cfg e) (na_of e) (nc_of e) (fc_init (e_cfg e)) (abs e).
 
 (* [pres e e']: e' has the same shape and is ok if e is; every transition of the model satisfies it *)
+Definition tcaps (e : endpoint) : list Z * list Z := (map s_cap (e_acc e), map s_cap (e_con e)).
+
 Definition pres (e e' : endpoint) : Prop :=
-  e_cfg e' = e_cfg e /\ na_of e' = na_of e /\ nc_of e' = nc_of e /\ (ep_ok e -> ep_ok e').
+  e_cfg e' = e_cfg e /\ na_of e' = na_of e /\ nc_of e' = nc_of e /\ tcaps e' = tcaps e /\ (ep_ok e -> ep_ok e').
 
 Lemma pres_refl : forall e, pres e e.
-Proof. intros e. unfold pres. split; [reflexivity|]. split; [reflexivity|]. split; [reflexivity|]. intros H; exact H. Qed.
+Proof. intros e. unfold pres. split; [reflexivity|]. split; [reflexivity|]. split; [reflexivity|]. split; [reflexivity|]. intros H; exact H. Qed.
 
 Lemma pres_trans : forall e1 e2 e3, pres e1 e2 -> pres e2 e3 -> pres e1 e3.
 Proof.
-  intros e1 e2 e3 (A1 & A2 & A3 & A4) (B1 & B2 & B3 & B4). unfold pres. split; [congruence|]. split; [congruence|]. split; [congruence|]. intros H. apply B4, A4, H.
+  intros e1 e2 e3 (A1 & A2 & A3 & At & A4) (B1 & B2 & B3 & Bt & B4). unfold pres. split; [congruence|]. split; [congruence|]. split; [congruence|]. split; [congruence|]. intros H. apply B4, A4, H.
 Qed.
 
 (* transitions that leave dispatcher and streams' queues alone *)
-Lemma pres_same : forall e e', e_cfg e' = e_cfg e -> e_d e' = e_d e -> na_of e' = na_of e -> nc_of e' = nc_of e ->
+Lemma pres_same : forall e e', e_cfg e' = e_cfg e -> e_d e' = e_d e -> na_of e' = na_of e -> nc_of e' = nc_of e -> tcaps e' = tcaps e ->
   ep_held e' = ep_held e -> pres e e'.
 Proof.
-  intros e e' H1 H2 H3 H4 H5. unfold pres. split; [assumption|]. split; [assumption|]. split; [assumption|].
+  intros e e' H1 H2 H3 H4 Ht H5. unfold pres. split; [assumption|]. split; [assumption|]. split; [assumption|]. split; [assumption|].
   intros [Hd Hs]. unfold ep_ok, abs. rewrite H1, H2, H3, H4, H5. split; assumption.
 Qed.
 
@@ -89,21 +91,38 @@ Proof.
   destruct (k =? 0); cbn [e_acc e_con set_acc set_con] in *; rewrite theld_upd_nth_none by exact H; reflexivity.
 Qed.
 
-(* updating a stream without touching its cache and queue *)
-Lemma pres_upd_neutral : forall e k i f, (forall s, sheld (f s) = sheld s) -> pres e (upd_stream e k i f).
+Lemma map_upd_nth_same : forall A B (g : A -> B) (f : A -> A) (l : list A) i,
+  (forall s, nth_error l i = Some s -> g (f s) = g s) -> map g (upd_nth i f l) = map g l.
 Proof.
-  intros e k i f Hf. destruct (upd_stream_shape e k i f) as (H1 & H2 & H3 & H4).
-  apply pres_same; try assumption.
+  intros A B g f. induction l as [|x l IH]; intros i H; [destruct i; reflexivity|].
+  destruct i; cbn [upd_nth map].
+  - rewrite (H x eq_refl). reflexivity.
+  - rewrite IH; [reflexivity|]. intros s Hs. apply H. exact Hs.
+Qed.
+
+Lemma tcaps_upd_stream : forall e k i f, (forall s, get_stream e k i = Some s -> s_cap (f s) = s_cap s) ->
+  tcaps (upd_stream e k i f) = tcaps e.
+Proof.
+  intros e k i f H. unfold get_stream, table in H. unfold tcaps, upd_stream, set_table, table.
+  destruct (k =? 0); cbn [e_acc e_con set_acc set_con]; rewrite map_upd_nth_same by exact H; reflexivity.
+Qed.
+
+(* updating a stream without touching its cache and queue *)
+Lemma pres_upd_neutral : forall e k i f, (forall s, sheld (f s) = sheld s) -> (forall s, s_cap (f s) = s_cap s) ->
+  pres e (upd_stream e k i f).
+Proof.
+  intros e k i f Hf Hcap. destruct (upd_stream_shape e k i f) as (H1 & H2 & H3 & H4).
+  apply pres_same; try assumption; [apply tcaps_upd_stream; intros s _; apply Hcap|].
   destruct (get_stream e k i) as [s|] eqn:E.
   - destruct (held_upd_stream e k i s f E) as (h1 & h2 & E1 & E2). rewrite E1, E2, Hf. reflexivity.
   - rewrite upd_stream_none by exact E. reflexivity.
 Qed.
 
-Lemma pres_upd_const_neutral : forall e k i s s', get_stream e k i = Some s -> sheld s' = sheld s ->
+Lemma pres_upd_const_neutral : forall e k i s s', get_stream e k i = Some s -> sheld s' = sheld s -> s_cap s' = s_cap s ->
   pres e (upd_stream e k i (fun _ => s')).
 Proof.
-  intros e k i s s' E Hs. destruct (upd_stream_shape e k i (fun _ => s')) as (H1 & H2 & H3 & H4).
-  apply pres_same; try assumption.
+  intros e k i s s' E Hs Hcap. destruct (upd_stream_shape e k i (fun _ => s')) as (H1 & H2 & H3 & H4).
+  apply pres_same; try assumption; [apply tcaps_upd_stream; intros s0 E0; congruence|].
   destruct (held_upd_stream e k i s (fun _ => s') E) as (h1 & h2 & E1 & E2). rewrite E1, E2, Hs. reflexivity.
 Qed.
 Ltac neutral := apply pres_same; reflexivity.
@@ -133,12 +152,14 @@ Ltac pt := eapply pres_trans.
 
 (* a frame leaves a stream and its permits return *)
 Lemma pres_release_remove : forall e k i s s' a f b,
-  get_stream e k i = Some s -> sheld s = a ++ f :: b -> sheld s' = a ++ b ->
+  get_stream e k i = Some s -> sheld s = a ++ f :: b -> sheld s' = a ++ b -> s_cap s' = s_cap s ->
   pres e (release (upd_stream e k i (fun _ => s')) f).
 Proof.
-  intros e k i s s' a f b E Hs Hs'. destruct (upd_stream_shape e k i (fun _ => s')) as (H1 & H2 & H3 & H4).
+  intros e k i s s' a f b E Hs Hs' Hcap.
+  assert (Htc : tcaps (release (upd_stream e k i (fun _ => s')) f) = tcaps e)
+    by (change (tcaps (release ?x ?y)) with (tcaps x); apply tcaps_upd_stream; intros s0 E0; congruence). destruct (upd_stream_shape e k i (fun _ => s')) as (H1 & H2 & H3 & H4).
   destruct (held_upd_stream e k i s (fun _ => s') E) as (h1 & h2 & E1 & E2).
-  unfold pres. split; [exact H1|]. split; [exact H3|]. split; [exact H4|].
+  unfold pres. split; [exact H1|]. split; [exact H3|]. split; [exact H4|]. split; [exact Htc|].
   intros [Hd Hst]. unfold ep_ok, abs, release.
   change (e_cfg (set_d ?x ?y)) with (e_cfg x). change (na_of (set_d ?x ?y)) with (na_of x). change (nc_of (set_d ?x ?y)) with (nc_of x).
   change (e_d (set_d ?x ?y)) with y. change (ep_held (set_d ?x ?y)) with (ep_held x).
@@ -152,12 +173,13 @@ Qed.
 (* a frame is partially consumed in place (moved to the cache) *)
 Lemma pres_shrink : forall e k i s s' a f b data',
   get_stream e k i = Some s -> sheld s = a ++ f :: b -> sheld s' = a ++ mkFrame (fkind f) data' (fsize f) :: b ->
-  (length data' <= length (fdata f))%nat ->
+  (length data' <= length (fdata f))%nat -> s_cap s' = s_cap s ->
   pres e (upd_stream e k i (fun _ => s')).
 Proof.
-  intros e k i s s' a f b data' E Hs Hs' Hl. destruct (upd_stream_shape e k i (fun _ => s')) as (H1 & H2 & H3 & H4).
+  intros e k i s s' a f b data' E Hs Hs' Hl Hcap.
+  assert (Htc : tcaps (upd_stream e k i (fun _ => s')) = tcaps e) by (apply tcaps_upd_stream; intros s0 E0; congruence). destruct (upd_stream_shape e k i (fun _ => s')) as (H1 & H2 & H3 & H4).
   destruct (held_upd_stream e k i s (fun _ => s') E) as (h1 & h2 & E1 & E2).
-  unfold pres. split; [exact H1|]. split; [exact H3|]. split; [exact H4|].
+  unfold pres. split; [exact H1|]. split; [exact H3|]. split; [exact H4|]. split; [exact Htc|].
   intros [Hd Hst]. unfold ep_ok, abs. rewrite H1, H2, H3, H4, E2, Hs'. split; [exact Hd|].
   eapply FcTrans; [exact Hst|].
   replace (h1 ++ (a ++ mkFrame (fkind f) data' (fsize f) :: b) ++ h2) with ((h1 ++ a) ++ mkFrame (fkind f) data' (fsize f) :: (b ++ h2))
@@ -211,7 +233,35 @@ Qed.
 
 Lemma pres_complete_read : forall e k i p, pres e (complete_read e k i p).
 Proof.
-  intros. unfold complete_read. pt; [|apply pres_add_event]. apply pres_upd_neutral. intros s. reflexivity.
+  intros. unfold complete_read. pt; [|apply pres_add_event]. apply pres_upd_neutral; intros s; reflexivity.
+Qed.
+
+(* read_exact never touches the capability or the phases of its stream *)
+Lemma read_iter_s_ctl : forall s p s' rel done, read_iter_s s p = RStep s' rel done ->
+  s_cap s' = s_cap s /\ s_rph s' = s_rph s /\ s_wph s' = s_wph s.
+Proof.
+  intros s p s' rel done H. unfold read_iter_s in H.
+  destruct (s_closed s). { inversion H; subst. auto. }
+  assert (Hgen : forall f s1, s_cap s1 = s_cap s /\ s_rph s1 = s_rph s /\ s_wph s1 = s_wph s ->
+    (if fkind f =? FK_CLOSE then RStep (set_closed s1 true) [f] false
+      else if fkind f =? FK_DATA then
+        let n := Z.to_nat (Z.min (pr_want p - pr_len p) (Z.of_nat (length (fdata f)))) in
+        let got := firstn n (fdata f) in
+        let rest := skipn n (fdata f) in
+        let p' := mkPread (pr_slot p) (pr_want p) (pr_len p + Z.of_nat n) (got :: pr_chunks p) in
+        let s2 := set_pread s1 (Some p') in
+        let done := pr_len p' =? pr_want p in
+        match rest with
+        | [] => RStep s2 [f] done
+        | _ => RStep (set_cache s2 (Some (mkFrame (fkind f) rest (fsize f)))) [] done
+        end
+      else RStep s1 [f] false) = RStep s' rel done ->
+    s_cap s' = s_cap s /\ s_rph s' = s_rph s /\ s_wph s' = s_wph s).
+  { intros f s1 H1 HH. destruct (fkind f =? FK_CLOSE); [inversion HH; subst; exact H1|].
+    destruct (fkind f =? FK_DATA); [|inversion HH; subst; exact H1].
+    cbv zeta in HH. destruct (skipn _ (fdata f)); inversion HH; subst; exact H1. }
+  destruct (s_cache s) as [fc|]; [apply (Hgen fc (set_cache s None)); [auto|exact H]|].
+  destruct (s_inq s) as [|f t]; [discriminate|]. apply (Hgen f (set_inq s t)); [auto|exact H].
 Qed.
 
 Lemma pres_read_iter : forall e k i s p e', get_stream e k i = Some s -> read_iter e k i s p = Some e' -> pres e e'.
@@ -220,9 +270,9 @@ Proof.
   inversion H; subst e'. clear H.
   assert (Hmain : pres e (fold_left release rel (upd_stream e k i (fun _ => s')))).
   { destruct (read_iter_s_held _ _ _ _ _ Er) as [[-> Hh]|[(f & -> & Hh)|(f & r & data' & -> & Hh & Hh' & Hl)]]; cbn [fold_left].
-    - eapply pres_upd_const_neutral; eassumption.
-    - apply (pres_release_remove e k i s s' [] f (sheld s')); [exact E|exact Hh|reflexivity].
-    - apply (pres_shrink e k i s s' [] f r data'); assumption. }
+    - eapply pres_upd_const_neutral; [eassumption|eassumption|apply (read_iter_s_ctl _ _ _ _ _ Er)].
+    - apply (pres_release_remove e k i s s' [] f (sheld s')); [exact E|exact Hh|reflexivity|apply (read_iter_s_ctl _ _ _ _ _ Er)].
+    - apply (pres_shrink e k i s s' [] f r data'); try assumption. apply (read_iter_s_ctl _ _ _ _ _ Er). }
   destruct done; [|exact Hmain]. destruct (s_pread s'); [|exact Hmain]. pt; [exact Hmain|apply pres_complete_read].
 Qed.
 (* ---- dispatcher ---- *)
@@ -253,7 +303,7 @@ Qed.
 
 Lemma pres_set_d_progress : forall e d, dstep (e_cfg e) (na_of e) (nc_of e) (e_d e) = DProgress d -> pres e (set_d e d).
 Proof.
-  intros e d H. unfold pres. split; [reflexivity|]. split; [reflexivity|]. split; [reflexivity|].
+  intros e d H. unfold pres. split; [reflexivity|]. split; [reflexivity|]. split; [reflexivity|]. split; [reflexivity|].
   intros [Hd Hs]. split.
   - apply (dstep_disp_ok (e_cfg e) _ _ (e_d e)); [exact Hd|]. change (na_of (set_d e d)) with (na_of e). change (nc_of (set_d e d)) with (nc_of e).
     rewrite H. reflexivity.
@@ -263,7 +313,7 @@ Qed.
 Lemma pres_set_d_failed : forall e d code, dstep (e_cfg e) (na_of e) (nc_of e) (e_d e) = DFailed d code ->
   pres e (set_fail (set_d e d) (Some code)).
 Proof.
-  intros e d code H. pt; [|apply pres_set_fail]. unfold pres. split; [reflexivity|]. split; [reflexivity|]. split; [reflexivity|].
+  intros e d code H. pt; [|apply pres_set_fail]. unfold pres. split; [reflexivity|]. split; [reflexivity|]. split; [reflexivity|]. split; [reflexivity|].
   intros [Hd Hs]. split.
   - apply (dstep_disp_ok (e_cfg e) _ _ (e_d e)); [exact Hd|]. change (na_of (set_d e d)) with (na_of e). change (nc_of (set_d e d)) with (nc_of e).
     rewrite H. reflexivity.
@@ -279,6 +329,7 @@ Proof.
   intros e d k i f H. unfold deliver.
   destruct (upd_stream_shape (set_d e d) k i (fun s => set_inq s (s_inq s ++ [f]))) as (H1 & H2 & H3 & H4).
   unfold pres. split; [exact H1|]. split; [exact H3|]. split; [exact H4|].
+  split; [change (tcaps e) with (tcaps (set_d e d)); apply tcaps_upd_stream; intros s0 _; reflexivity|].
   intros [Hd Hs].
   (* the target exists *)
   destruct (dstep_routing _ _ _ _ _ _ _ _ H) as (h & Hcase & Hk & Hi).
@@ -316,7 +367,7 @@ Qed.
 Lemma pres_handover : forall e k i slot, pres e (handover e k i slot).
 Proof.
   intros. unfold handover. pt; [|apply pres_add_event]. pt; [|apply pres_upd_slot].
-  apply pres_upd_neutral. intros s. reflexivity.
+  apply pres_upd_neutral; intros s; reflexivity.
 Qed.
 
 Lemma pres_stream_step : forall e k i e', stream_step e k i = Some e' -> pres e e'.
@@ -328,12 +379,13 @@ Proof.
                    | _, _ => None
                    end) = Some e' -> pres e e').
   { intros Hm. destruct (s_rph s); try discriminate. destruct (s_wph s); try discriminate; inversion Hm; subst e'.
-    - pt; [|apply pres_enqueue_idle]. apply pres_upd_neutral. intros s0. reflexivity.
+    - pt; [|apply pres_enqueue_idle]. apply pres_upd_neutral; intros s0; reflexivity.
     - apply pres_handover. }
   assert (Hdisc : forall f t, s_inq s = f :: t ->
             pres e (release (upd_stream e k i (fun _ => if fkind f =? FK_OPEN then set_rph (set_inq s t) RReady else set_inq s t)) f)).
-  { intros f t Eq. apply (pres_release_remove e k i s _ (match s_cache s with Some f0 => [f0] | None => [] end) f t); [exact E| |].
+  { intros f t Eq. apply (pres_release_remove e k i s _ (match s_cache s with Some f0 => [f0] | None => [] end) f t); [exact E| | |].
     - unfold sheld. rewrite Eq. reflexivity.
+    - destruct (fkind f =? FK_OPEN); reflexivity.
     - destruct (fkind f =? FK_OPEN); reflexivity. }
   destruct (s_rph s) eqn:Er; destruct (s_inq s) as [|f t] eqn:Eq; destruct (s_pread s) as [p|] eqn:Ep;
     try (eapply pres_read_iter; eassumption); try (apply Hmain; exact H); try discriminate;
@@ -406,8 +458,8 @@ Lemma pres_after_close : forall e k i, pres e (after_close e k i).
 Proof.
   intros. unfold after_close. destruct (get_stream e k i) as [s|]; [|apply pres_refl].
   destruct (k =? 0).
-  - apply pres_upd_neutral. intros s0. reflexivity.
-  - pt; [|apply pres_enqueue_idle]. apply pres_upd_neutral. intros s0. reflexivity.
+  - apply pres_upd_neutral; intros s0; reflexivity.
+  - pt; [|apply pres_enqueue_idle]. apply pres_upd_neutral; intros s0; reflexivity.
 Qed.
 
 Lemma pres_send_close : forall e k i, pres e (send_close e k i).
@@ -445,10 +497,10 @@ Proof.
   destruct (get_stream e (sl_kind r) i) as [s|] eqn:E; [|apply pres_skip].
   destruct o; try apply pres_refl.
   - (* write *) destruct (sl_w r); [|apply pres_skip]. unfold op_write. destruct (write_all _ _ _) as [frames buf].
-    pt; [|apply pres_upd_slot]. pt; [apply pres_emit_data|]. apply pres_upd_neutral. intros s0. reflexivity.
+    pt; [|apply pres_upd_slot]. pt; [apply pres_emit_data|]. apply pres_upd_neutral; intros s0; reflexivity.
   - (* flush *) destruct (sl_w r); [|apply pres_skip]. unfold op_flush. destruct (s_wbuf s); [apply pres_refl|].
-    pt; [apply pres_emit_data|]. apply pres_upd_neutral. intros s0. reflexivity.
-  - (* read *) destruct (sl_r r && negb _); [|apply pres_skip]. unfold op_read. apply pres_upd_neutral. intros s0. reflexivity.
+    pt; [apply pres_emit_data|]. apply pres_upd_neutral; intros s0; reflexivity.
+  - (* read *) destruct (sl_r r && negb _); [|apply pres_skip]. unfold op_read. apply pres_upd_neutral; intros s0; reflexivity.
   - (* dropw *) destruct (sl_w r); [|apply pres_skip]. unfold op_dropw. pt; [apply pres_upd_slot|apply pres_send_close].
   - (* dropr *) destruct (sl_r r && negb _); [|apply pres_skip]. unfold op_dropr.
     pt; [apply pres_upd_slot|].
@@ -456,10 +508,11 @@ Proof.
     assert (E1 : get_stream e1 (sl_kind r) i = Some s) by exact E.
     destruct (s_cache s) as [f|] eqn:Ec.
     + rewrite upd_stream_release. rewrite (upd_stream_const e1 (sl_kind r) i s _ E1).
-      apply (pres_release_remove e1 (sl_kind r) i s _ [] f (s_inq s)); [exact E1| |].
+      apply (pres_release_remove e1 (sl_kind r) i s _ [] f (s_inq s)); [exact E1| | |].
       * unfold sheld. rewrite Ec. reflexivity.
       * reflexivity.
-    + rewrite (upd_stream_const e1 (sl_kind r) i s _ E1). apply (pres_upd_const_neutral e1 (sl_kind r) i s); [exact E1|].
+      * reflexivity.
+    + rewrite (upd_stream_const e1 (sl_kind r) i s _ E1). apply (pres_upd_const_neutral e1 (sl_kind r) i s); [exact E1| |reflexivity].
       unfold sheld. cbn [set_closed set_cache set_rph s_cache s_inq]. rewrite Ec. reflexivity.
 Qed.
 Lemma pres_op_open : forall e kind cap slot, pres e (op_open e kind cap slot).
@@ -467,13 +520,13 @@ Proof. intros. unfold op_open. pt; [apply pres_set_slots|apply pres_upd_queue]. 
 
 Lemma pres_feed : forall e bs, pres e (set_d e (feed (e_d e) bs)).
 Proof.
-  intros e bs. unfold pres. split; [reflexivity|]. split; [reflexivity|]. split; [reflexivity|].
+  intros e bs. unfold pres. split; [reflexivity|]. split; [reflexivity|]. split; [reflexivity|]. split; [reflexivity|].
   intros [Hd Hs]. split; [exact Hd|]. eapply FcTrans; [exact Hs|]. apply (FcFeed _ _ _ (abs e) bs).
 Qed.
 
 Lemma pres_close_in : forall e, pres e (set_d e (close_in (e_d e))).
 Proof.
-  intros e. unfold pres. split; [reflexivity|]. split; [reflexivity|]. split; [reflexivity|].
+  intros e. unfold pres. split; [reflexivity|]. split; [reflexivity|]. split; [reflexivity|]. split; [reflexivity|].
   intros [Hd Hs]. split; [exact Hd|]. eapply FcTrans; [exact Hs|]. apply (FcClose _ _ _ (abs e)).
 Qed.
 
@@ -488,16 +541,16 @@ Proof.
   set (qs := _ ++ _). set (e0 := mkEp c (init_d c) [] [] qs [] [] false [] [] None).
   assert (H0 : ep_ok e0) by (split; [exact I|apply FcRefl]).
   destruct (negb (mux_verify c (bt_of_list acc) (bt_of_list con))).
-  { destruct (pres_set_fail e0 (Some 1)) as (Hc & _ & _ & Hk). split; [apply Hk; exact H0|exact Hc]. }
+  { destruct (pres_set_fail e0 (Some 1)) as (Hc & _ & _ & _ & Hk). split; [apply Hk; exact H0|exact Hc]. }
   destruct (has_dup_keys pacc || has_dup_keys pcon).
-  { destruct (pres_set_fail e0 (Some ERR_PROTOCOL)) as (Hc & _ & _ & Hk). split; [apply Hk; exact H0|exact Hc]. }
+  { destruct (pres_set_fail e0 (Some ERR_PROTOCOL)) as (Hc & _ & _ & _ & Hk). split; [apply Hk; exact H0|exact Hc]. }
   set (sa := map new_stream _). set (sc := map new_stream _).
   set (e1 := set_con (set_acc e0 sa) sc).
   assert (H1 : ep_ok e1).
   { split; [exact I|]. unfold abs, ep_held. cbn [e1 set_con set_acc e_acc e_con e_d e_cfg e0]. unfold sa, sc. rewrite !theld_new. apply FcRefl. }
   pose proof (pres_initial_close (length sa) e1 0 0%nat) as P1.
   pose proof (pres_initial_close (length sc) (initial_close e1 0 (length sa) 0) 1 0%nat) as P2.
-  destruct (pres_trans _ _ _ P1 P2) as (Hc & _ & _ & Hk). split; [apply Hk; exact H1|exact Hc].
+  destruct (pres_trans _ _ _ P1 P2) as (Hc & _ & _ & _ & Hk). split; [apply Hk; exact H1|exact Hc].
 Qed.
 
 (* ---- the two-sided system ---- *)
@@ -603,7 +656,7 @@ Proof.
   destruct (sys_init_ok raw a b) as (Hb & Hcb & Ha & Hca).
   assert (P : spres (sys_init raw a b) (fold_left step_sys ops (sys_start raw a b))).
   { eapply spres_trans; [apply spres_settle|apply spres_fold]. }
-  destruct P as [(A1 & _ & _ & A4) (B1 & _ & _ & B4)].
+  destruct P as [(A1 & _ & _ & _ & A4) (B1 & _ & _ & _ & B4)].
   split; [apply B4; exact Hb|]. split; [congruence|]. split; [apply A4; exact Ha|]. intros Hr. rewrite A1. apply Hca. exact Hr.
 Qed.
 
